@@ -284,6 +284,23 @@ def run(F, rep):
     rep.rule('C15.L3', 'removeAllIssues clears all four vectors; removeError erases from mIssues (at the position stored in mErrors) and from mErrors')
     rm = F.fn1('Logger::LoggerImpl::removeAllIssues')
     cleared = {receiver(n)['n'] for n in rm.walk() if n.get('k') == 'Call' and n.get('fn') == 'clear' and receiver(n) is not None and receiver(n).get('k') == 'Member'}
+    # other ways of emptying a vector: swap with an empty temporary, assignment of {} / an empty vector, resize(0)
+    for n in rm.walk():
+        if n.get('k') == 'Call' and n.get('fn') == 'swap' and n.get('mc') and len(n.get('c', [])) == 2:
+            a, b = n['c'][0], n['c'][1]
+            for x, y in ((a, b), (b, a)):
+                while x.get('k') in ('Temp', 'Cast', 'Construct', 'Paren') and len(x.get('c', [])) == 1:
+                    x = x['c'][0]
+                if y.get('k') == 'Member' and y.get('field') and x.get('k') in ('Construct', 'Temp') and not x.get('c'):
+                    cleared.add(y['n'])
+        if n.get('k') == 'Call' and n.get('fn') == 'resize' and n.get('mc') and receiver(n) is not None and receiver(n).get('k') == 'Member' and render(nth_arg(n, 0)) == '0':
+            cleared.add(receiver(n)['n'])
+        if n.get('k') == 'Call' and n.get('opc') == '=' and n['c'][0].get('k') == 'Member' and n['c'][0].get('field'):
+            r_ = n['c'][1]
+            while r_.get('k') in ('Temp', 'Cast', 'Paren') and len(r_.get('c', [])) == 1:
+                r_ = r_['c'][0]
+            if r_.get('k') in ('Construct', 'InitList') and not r_.get('c'):
+                cleared.add(n['c'][0]['n'])
     for v in LOGGER_VECTORS:
         rep.check(v in cleared, 'C15.L3', 'removeAllIssues|' + v, rm.where(), '%s is not cleared by removeAllIssues' % v, 'cleared')
     re_ = F.fn1('Logger::LoggerImpl::removeError')
